@@ -45,6 +45,9 @@ type World struct {
 	bceDone bool
 }
 
+// theWorld: the tree under analysis, for helpers that only get syntax.
+var theWorld *World
+
 func goEnv() []string {
 	env := []string{}
 	for _, e := range os.Environ() {
@@ -189,6 +192,7 @@ func NewWorld(repo, verifd string, needTests bool) (*World, error) {
 	}
 	w.normaliseSyntax()
 	w.resolveRenames()
+	theWorld = w
 	return w, nil
 }
 
